@@ -373,14 +373,19 @@ snarf_scale(const char *spec)
 				r = SCALE_HIJRI_DIYANET;
 				break;
 			case 'I': {
-				/* Gent's types */
+				/* Gent's types, I, II, III or IV followed by
+				 * A or C, and nothing beyond that is ours */
 				const char *kp = spec + 7U;
+				unsigned int typ = 0U;
+
+				if (*kp == 'V') {
+					typ = 3U, kp++;
+				} else {
+					for (; *kp == 'I' && typ < 2U; typ++, kp++);
+				}
 				r = SCALE_HIJRI_IA;
-				r += (echs_scale_t)((*kp == 'V' || *kp++ == 'I') * 2U);
-				r += (echs_scale_t)((*kp == 'V' || *kp++ == 'I') * 2U);
-				r += (echs_scale_t)((*kp == 'C'));
-				r += (echs_scale_t)((*kp == 'V') ? 2U : 0U);
-				r += (echs_scale_t)(*++kp == 'C');
+				r += (echs_scale_t)(typ * 2U);
+				r += (echs_scale_t)(*kp == 'C');
 				break;
 			}
 			}
